@@ -279,6 +279,8 @@ fn spec_pad_ok(bytes: &[u8], pos: usize) -> bool {
 const CODER_HEADER_BITS: usize = 10;
 const CODER_HEADER: u16 = 0b0_0000_1_00_1_0;
 const CONCRETE_PREFIX: usize = 17;
+/// toc_entries 5, 2000, 20000, 5000000, 7 (forms u(10), 1024 + u(14), 17408 + u(22), 4211712 + u(30), u(10)): 96 bits
+const CONCRETE_TOC5: [u8; 12] = [0x14, 0x10, 0xf4, 0x20, 0x88, 0x02, 0x30, 0xd0, 0x01, 0x03, 0xc0, 0x01];
 
 /// N = table length, LEN = bytes offered to the parser (enough for the longest encoding), PAD = LEN + 8.
 fn parse_contract<const N: usize, const LEN: usize, const PAD: usize>(
@@ -290,12 +292,12 @@ fn parse_contract<const N: usize, const LEN: usize, const PAD: usize>(
     permuted: bool,
     fail: bool,
     extra_bits_max: usize,
-    short_entries_only: bool,
+    concrete_entries: bool,
 ) {
     assert!(PAD == LEN + 8);
     let fh = toc_header(width, height, num_passes);
     // ---- the bitstream
-    let mut bytes: [u8; PAD] = kani::any();
+    let mut bytes: [u8; PAD] = if concrete_entries { [0u8; PAD] } else { kani::any() };
     let mut k = LEN;
     while k < PAD {
         bytes[k] = 0;
@@ -312,6 +314,11 @@ fn parse_contract<const N: usize, const LEN: usize, const PAD: usize>(
         bytes[..CONCRETE_PREFIX].copy_from_slice(&prefix); // memcpy, no loop to unwind
     } else {
         kani::assume(bytes[0] & 1 == 0); // permuted_toc = 0 (also enforced by stub_decoder_unreachable)
+    }
+    if concrete_entries {
+        // quick-tier variant: ONE concrete TOC (all four U32 forms), the permutation stays symbolic
+        let start = if permuted { CONCRETE_PREFIX } else { 1 };
+        bytes[start..start + 12].copy_from_slice(&CONCRETE_TOC5);
     }
     // ---- the permutation the (stubbed) decoder returns: any permutation of 0..N, or an error
     let perm: [usize; 8] = kani::any();
@@ -344,9 +351,6 @@ fn parse_contract<const N: usize, const LEN: usize, const PAD: usize>(
     let mut k = 0;
     while k < N {
         let (v, nb) = spec_toc_entry(&bytes, pos);
-        if short_entries_only {
-            kani::assume(nb == 12); // quick-tier variant: every entry uses the u(10) form
-        }
         s[k] = v;
         o[k] = total;
         total += v as usize;
@@ -370,14 +374,17 @@ fn parse_contract<const N: usize, const LEN: usize, const PAD: usize>(
     if permuted && fail {
         let reported = matches!(r, Err(crate::Error::Decoder(jxl_coding::Error::InvalidPermutation)));
         assert!(reported, "[C14,C01] an invalid permutation is reported as such");
-        kani::cover!(reported);
+    }
+    // vacuity guards (kept outside every branch: a cover in code that one instantiation never reaches counts as unsatisfied)
+    let ok = r.is_ok();
+    kani::cover!(fail || ok);
+    kani::cover!(fail || concrete_entries || !ok);
+    kani::cover!(fail || concrete_entries || (ok && s[0] >= 4211712 && (N == 1 || s[N - 1] < 1024)));
+    kani::cover!(fail || !permuted || N == 1 || (ok && perm[0] != 0 && perm[1] == 0));
+    if fail {
         return;
     }
-    kani::cover!(r.is_ok());
-    kani::cover!(r.is_err());
     let Ok(toc) = r else { return };
-    kani::cover!(short_entries_only || (s[0] >= 4211712 && (N == 1 || s[N - 1] < 1024)));
-    kani::cover!(!permuted || N == 1 || perm[0] != 0);
 
     assert!(bitstream.num_read_bits() == pos, "[C14] parsing stops at the byte boundary after the last TOC entry");
     assert!(toc.num_lf_groups == num_lf && toc.num_groups == num_groups, "[C14] group counts of the frame header");
@@ -546,7 +553,7 @@ macro_rules! plain_harness {
 plain_harness!(parse_single_plain_contract, parse_contract::<1, 8, 16>(1, 1, 1, 1, 1, false, false, 0, false));
 // 1x1 frame, two passes: 1 + 1 + 1 + 1 * 2 = 5 entries
 plain_harness!(parse_two_passes_plain_contract, parse_contract::<5, 24, 32>(1, 1, 2, 1, 1, false, false, 0, false));
-plain_harness!(parse_two_passes_plain_short_contract, parse_contract::<5, 24, 32>(1, 1, 2, 1, 1, false, false, 0, true));
+plain_harness!(parse_two_passes_plain_concrete_contract, parse_contract::<5, 24, 32>(1, 1, 2, 1, 1, false, false, 0, true));
 // 257x1 frame (group_dim 256: header.rs:31 default group_size_shift 1), one pass: 2 groups -> 1 + 1 + 1 + 2 = 5 entries
 plain_harness!(parse_two_groups_plain_contract, parse_contract::<5, 24, 32>(257, 1, 1, 1, 2, false, false, 0, false));
 
@@ -567,7 +574,7 @@ macro_rules! permuted_harness {
 // exactly 125 (TOC entries start at byte 17, no padding bits) for the longer tables
 permuted_harness!(parse_single_permuted_contract, stub_read_permutation_1, parse_contract::<1, 24, 32>(1, 1, 1, 1, 1, true, false, 9, false));
 permuted_harness!(parse_two_passes_permuted_contract, stub_read_permutation_5, parse_contract::<5, 40, 48>(1, 1, 2, 1, 1, true, false, 0, false));
-permuted_harness!(parse_two_passes_permuted_short_contract, stub_read_permutation_5, parse_contract::<5, 40, 48>(1, 1, 2, 1, 1, true, false, 0, true));
-permuted_harness!(parse_two_groups_permuted_contract, stub_read_permutation_5, parse_contract::<5, 40, 48>(257, 1, 1, 1, 2, true, false, 0, false));
+permuted_harness!(parse_two_passes_permuted_concrete_contract, stub_read_permutation_5, parse_contract::<5, 40, 48>(1, 1, 2, 1, 1, true, false, 0, true));
+permuted_harness!(parse_two_groups_permuted_concrete_contract, stub_read_permutation_5, parse_contract::<5, 40, 48>(257, 1, 1, 1, 2, true, false, 0, true));
 // read_permutation fails: the error is passed on
 permuted_harness!(parse_permutation_error_contract, stub_read_permutation_5, parse_contract::<5, 40, 48>(1, 1, 2, 1, 1, true, true, 0, false));
